@@ -113,7 +113,7 @@ func genAsm(r *hx.Rand, tier string, class string) input {
 	}
 	all, caches := modules(cfg)
 	phases := 2 + r.Intn(2)
-	per := 6 + r.Intn(14)
+	per := 6 + r.Intn(10)
 	if tier == "thorough" && r.Chance(1, 3) {
 		per = 20 + r.Intn(40)
 	}
@@ -408,7 +408,7 @@ func genAPI(r *hx.Rand, tier string) input {
 // ------------------------------------------------------------ gen / shrink
 
 func gen(r *hx.Rand, tier string) []json.RawMessage {
-	nasm, nleaf, napi := 40, 12, 80
+	nasm, nleaf, napi := 20, 6, 80
 	if tier == "thorough" {
 		nasm, nleaf, napi = 250, 100, 1000
 	}
